@@ -287,7 +287,7 @@ def ecos_cases():
     configs += [(2, 2, (0, 0), ("lb", "box"), None, False, (1,)), (2, 2, (1, 0), ("free", "ub"), None, False, (0,)),
                 (4, 2, (0, 1), ("free", "lb", "free", "box"), None, True, (0, 1))]
     for nv, m, sense, kinds, vt, cones, empty in configs:
-        for flag in (0, 10, 1, -2):
+        for flag in (0, 10, 1, -2, 11):
             def setup(c, nv=nv, m=m, sense=sense, kinds=kinds, vt=vt, cones=cones, flag=flag, empty=empty):
                 F = sym_formula(c, nv, m, sense, kinds, vt, cones, empty=empty)
                 return {"F": F, "fake": FakeEcos(c, flag), "before": D.snapshot_prog(F), "x": arr([c.fresh_real(f"x{j}_") for j in range(nv)]), "flag": flag}
@@ -333,7 +333,11 @@ def ecos_cases():
                 return D.prog_unchanged(ns["before"], ns["F"])
 
             def outcome(ns, sol):
-                if ns["flag"] not in (0, 10):
+                # continuous solves: 0 = optimal, 10 = optimal to reduced accuracy.  Branch and bound (ECOS-BB): 0 = optimal,
+                # 10 = iteration limit reached with a feasible but NOT proven optimal incumbent, 11/12 = limit without one
+                mixed = any(t != "C" for t in ns["F"].vtype)
+                reached = ns["flag"] == 0 or (ns["flag"] == 10 and not mixed)
+                if not reached:
                     return isinstance(sol, lp.Solution) and sol.x is None and isinstance(sol.objval, float) and math.isnan(sol.objval)
                 return isinstance(sol, lp.Solution) and sol.x is not None and len(sol.x) == len(ns["F"].obj)
 
